@@ -20,6 +20,26 @@ CONSTRUCTS = [
 DIRTY = "{ if (P0_NEW & 1) { P2 = RsV; P0 = RsV; mem_store_u8(RsV, mem_load_u8(RtV)); JUMP(RtV); } }"
 
 
+def three_event_harness():
+    """Generated harness (under /verif/.cache, rebuilt on every run): step_with_three_events split by the first token."""
+    d = os.path.join(framework.VERIF, ".cache", "ch")
+    os.makedirs(d, exist_ok=True)
+    path = os.path.join(d, "c13_three_events.py")
+    src = ["import sys", f"sys.path.insert(0, {os.path.join(framework.VERIF, 'vf', 'ch')!r})", "from c13_harness import _run, _ok", ""]
+    for t0 in range(10):
+        src += [f"def three_events_first_token_{t0}(pre_inst: int, pre_cls: int, f0: bool, k0: int, t1: int, f1: bool, k1: int, t2: int, f2: bool, k2: int) -> bool:",
+                '    """',
+                "    pre: -1 <= pre_inst <= 3 and -1 <= pre_cls <= 3",
+                "    pre: -1 <= k0 <= 4 and 0 <= t1 < 10 and -1 <= k1 <= 4 and 0 <= t2 < 10 and -1 <= k2 <= 4",
+                "    post: __return__",
+                '    """',
+                f"    return _ok(*_run((True, False, True, False, True, True), pre_inst, pre_cls, [({t0}, f0, k0), (t1, f1, k1), (t2, f2, k2)]))",
+                "", ""]
+    with open(path, "w") as f:
+        f.write("\n".join(src))
+    return path
+
+
 def programs():
     out = []
     names = [c[0] for c in CONSTRUCTS]
@@ -81,8 +101,14 @@ def run(tier):
     rep = Report("C13", tier, "other")
     thorough = tier == "thorough"
     # (a) inductive step on the real state machine, arbitrary pre-state
-    res = chrun.run_harness(HARNESS, 900 if thorough else 240, thorough=thorough)
+    res = chrun.run_harness(HARNESS, 240, thorough=False)
     nconf = chrun.report(rep, HARNESS, res, "C13")
+    if thorough:
+        # three events: one CrossHair condition per first token (the path tree is split 10 ways and explored in parallel)
+        gen = three_event_harness()
+        res3 = chrun.run_harness(gen, 1500, thorough=True)
+        nconf += chrun.report(rep, gen, res3, "C13")
+        res = res + res3
     # (b) construct -> event mapping: all 2^10 combinations on a used transformer + two-part instructions
     progs = programs()
     singles = [(p,) for p in progs]
@@ -131,4 +157,4 @@ def run(tier):
     rep.samples = [dict(function=r["name"], verdict=r["verdict"], seconds=r["time"]) for r in res] + [recs[5]["texts"], recs[300]["texts"]]
     rep.assumptions = ["CrossHair/z3 models of Python bools, ints and lists", "the construct -> callback mapping has no value dimension: "
                        "it is enumerated (b, c), only (a) is solver-decided"]
-    return rep.finish({"conditions confirmed": (nconf, 4), "construct combinations agreeing": (nprog, 400), "corpus parts agreeing": (ncorp, 1500)})
+    return rep.finish({"conditions confirmed": (nconf, 4 if not thorough else 10), "construct combinations agreeing": (nprog, 400), "corpus parts agreeing": (ncorp, 1500)})
